@@ -46,7 +46,7 @@ SPEC = dict(
     module="LMSampler.C16",
     harness_bin="sampler",
     ml_modules=["sampler_model"],
-    n={"quick": 300, "thorough": 6000},
+    n={"quick": 300, "thorough": 5000},
     search_n={"quick": 600, "thorough": 5000},
     nontrivial=nontrivial,
     histogram=histogram,
